@@ -154,6 +154,34 @@ def run(ctx):
                 ctx.violation('%s.%s.%s' % (pname, kind, key),
                               '%s.on_%s%r returned %r: %s' % (pname, kind, g[1:], out, key),
                               case=[pname] + list(g), expected=key, actual=list(out), theorem='Props/C23.v')
+    # ---- on_request_error (connection errors, overloaded, bootstrapping, truncate/server errors): documented = the fall-through policy
+    # rethrows, every other built-in policy moves to the next host at the same level; never a consistency level
+    from cassandra import OperationTimedOut
+    from cassandra.connection import ConnectionException
+    errors = [None, ConnectionException('closed'), OperationTimedOut(), Exception('overloaded'), 'ServerError']
+    for pname, pol in pols.items():
+        for c in cls:
+            for n in (0, 1, 2, 5, 10**6):
+                for ei, err in enumerate(errors):
+                    g = ('reqerr', c, None, None, None, None, n)
+                    try:
+                        out = pol.on_request_error(None, c, err, n)
+                        out = (int(out[0]), None if out[1] is None else int(out[1]))
+                    except Exception as e:
+                        ctx.violation('raises.%s.reqerr' % pname, '%s.on_request_error(consistency=%r, error #%d, retry_num=%r) raised %r' % (pname, c, ei, n, e),
+                                      case=[pname] + list(g) + [ei], expected='a (decision, consistency) pair', actual=repr(e))
+                        continue
+                    ctx.count('call', 'reqerr')
+                    ctx.case([pname] + list(g) + [ei], nontrivial=(out != (RP.RETHROW, None)),
+                             sample={'policy': pname, 'call': 'reqerr', 'consistency': c, 'error': repr(err), 'retry_num': n, 'decision': out})
+                    exp = (RP.RETHROW, None) if pname == 'Fallthrough' else (RP.RETRY_NEXT_HOST, None)
+                    if out != exp:
+                        ctx.violation('%s.reqerr.%s' % (pname, 'retries' if pname == 'Fallthrough' else 'not-as-documented'),
+                                      '%s.on_request_error(consistency=%r, error=%r, retry_num=%r) returned %r, documented %r' % (pname, c, err, n, out, exp),
+                                      case=[pname] + list(g) + [ei], expected=list(exp), actual=list(out), theorem='Props/C23.v')
+                    if ei == 0:
+                        cases.append('dec_eqb (%s_on_request_error %s) %s' % (pname, '' if pname == 'Fallthrough' else '%s %s' % (zl(c), zl(n)), dec(out)))
+                        meta.append((pname, g, out))
     if 'translate:RetryPolicies.v' in [x[0] for x in ctx.proof_broken] or 'translate:RetryConsts.v' in [x[0] for x in ctx.proof_broken]:
         return
     # translation validation: generated Gallina vs the Python methods
@@ -181,7 +209,7 @@ def replay(ctx, rp):
     if not case:
         print('nothing to replay (kind=%s): %s' % (rp.get('kind'), rp.get('theorem')))
         return 1
-    pname, kind, c, w, rq, rc, d, n = case
+    pname, kind, c, w, rq, rc, d, n = case[:8]
     with warnings.catch_warnings():
         warnings.simplefilter('ignore')
         pol = {'Default': P.RetryPolicy, 'Fallthrough': P.FallthroughRetryPolicy,
@@ -190,8 +218,14 @@ def replay(ctx, rp):
         out = pol.on_read_timeout(None, c, rq, rc, d, n)
     elif kind == 'write':
         out = pol.on_write_timeout(None, c, w, rq, rc, n)
+    elif kind == 'reqerr':
+        from cassandra import OperationTimedOut
+        from cassandra.connection import ConnectionException
+        err = [None, ConnectionException('closed'), OperationTimedOut(), Exception('overloaded'), 'ServerError'][case[8]]
+        out = pol.on_request_error(None, c, err, n)
     else:
         out = pol.on_unavailable(None, c, rq, rc, n)
+    out = (int(out[0]), None if out[1] is None else int(out[1]))
     print('replay %s.%s%r -> %r (recorded %r; violated clause: %s)' % (pname, kind, case[2:], out, rp.get('actual'), rp.get('expected')))
     same = list(out) == rp.get('actual')
     print('VIOLATION property=C23 replay=%s' % ctx.replay_path if same else 'not reproduced')
